@@ -1,36 +1,118 @@
-"""Implementation side of C04: one payload = one session (a list of items run one after the other in
-this process).  Before and after every item the process-wide generator's state is hashed; probes inside
-pipelines record it too (verif_probes.rng_probe).  States, drawn values and results are renumbered by
-first occurrence over the whole session, so only equality patterns leave the driver."""
+"""Implementation side of C04: one payload = one session (a list of items run one after the other).
+Before and after every item the process-wide generator's state is hashed; probes inside pipelines record
+it too (verif_probes.rng_probe).  States, drawn values and results are renumbered by first occurrence
+over the whole session, so only equality patterns leave the driver.
+
+A session may name several interpreter processes (`procs`: PYTHONHASHSEED values; every item carries the
+index `proc` of the one it runs in).  Each group of consecutive items with the same `proc` then runs in a
+FRESH child interpreter started with that hash seed; the generator state is carried from one child to the
+next (get_state -> JSON -> set_state), everything else about the process is new.  Digests are sha1 over
+bytes, so they mean the same thing in every process.
+
+How a seed reaches the run is part of the item (`via`): constructor, YAML text through pyxel.loads,
+attribute setter (after the constructor was given ANOTHER seed), override key through run_mode's
+override_dct.  Model `seed` arguments likewise: ModelFunction arguments, override key, or an observation
+sweep over the seed itself.
+
+Multi-island calibrations: pygmo.island is wrapped from outside so that the k-th island created sleeps a
+planned time after it is built (forcing the island-creating threads to FINISH in a chosen order); the
+wrapper records the order in which they really finished, and after _build the seed every island of the
+archipelago actually has.  `parallel: false` is injected into ArchipelagoDataTree from outside."""
 from __future__ import annotations
 
 import hashlib
+import json
 import os
+import subprocess
+import sys
+import threading
+import time
+from pathlib import Path
 
 import numpy as np
 
 GROUP_ORDER = ["photon_collection", "charge_generation", "charge_collection", "charge_measurement"]
 
-# short name -> (group, func, arguments without seed)
+
+def _data(name: str) -> str:
+    import pyxel
+    return str(Path(pyxel.__file__).parent / "models" / "charge_generation" / "data" / name)
+
+
+NGHXRG_NOISE = [
+    {"ktc_bias_noise": dict(ktc_noise=1, bias_offset=2, bias_amp=2)},
+    {"white_read_noise": dict(rd_noise=1, ref_pixel_noise_ratio=2)},
+    {"corr_pink_noise": dict(c_pink=1.0)},
+    {"uncorr_pink_noise": dict(u_pink=1.0)},
+    {"acn_noise": dict(acn=1.0)},
+    {"pca_zero_noise": dict(pca0_amp=1.0)},
+]
+
+# short name -> (group, func, arguments without seed[, detector options for a direct call])
 MODELS = {
     "shot_noise": ("photon_collection", "pyxel.models.photon_collection.shot_noise", dict(type="poisson")),
     "shot_noise_normal": ("photon_collection", "pyxel.models.photon_collection.shot_noise", dict(type="normal")),
     "simple_conversion": ("charge_generation", "pyxel.models.charge_generation.simple_conversion",
                           dict(quantum_efficiency=0.5, binomial_sampling=True)),
+    "simple_conversion_det": ("charge_generation", "pyxel.models.charge_generation.simple_conversion",
+                              dict(quantum_efficiency=0.5, binomial_sampling=False)),
     "simple_dark_current": ("charge_generation", "pyxel.models.charge_generation.simple_dark_current",
                             dict(dark_rate=20.0)),
     "dark_current": ("charge_generation", "pyxel.models.charge_generation.dark_current",
-                     dict(figure_of_merit=1.0e6, spatial_noise_factor=0.4, temporal_noise=True)),
+                     dict(figure_of_merit=1.0, spatial_noise_factor=0.01, temporal_noise=True), dict(rows=6)),
     "fixed_pattern_noise": ("charge_collection", "pyxel.models.charge_collection.fixed_pattern_noise",
                             dict(fixed_pattern_noise_factor=0.02)),
     "output_node_noise": ("charge_measurement", "pyxel.models.charge_measurement.output_node_noise",
                           dict(std_deviation=0.001)),
     "ktc_noise": ("charge_measurement", "pyxel.models.charge_measurement.ktc_noise", dict(node_capacitance=30.0e-15)),
     "output_node_noise_cmos": ("charge_measurement", "pyxel.models.charge_measurement.output_node_noise_cmos",
-                               dict(readout_noise=5.0, readout_noise_std=1.0)),
+                               dict(readout_noise=5.0, readout_noise_std=1.0), dict(kind="cmos")),
     "emccd": ("charge_transfer", "pyxel.models.charge_transfer.multiplication_register",
               dict(total_gain=100, gain_elements=10)),
+    # the functions that used to be covered by the bracket table only
+    "charge_deposition": ("charge_generation", "pyxel.models.charge_generation.charge_deposition",
+                          dict(flux=2000.0, step_size=1.0, energy_mean=1.0, energy_spread=0.1,
+                               stopping_power_curve="@protons-in-silicon_stopping-power.csv"), dict(rows=6)),
+    "charge_deposition_in_mct": ("charge_generation", "pyxel.models.charge_generation.charge_deposition_in_mct",
+                                 dict(flux=2000.0, step_size=1.0, energy_mean=1.0, energy_spread=0.1,
+                                      stopping_power_curve="@mct-stopping-power.csv"), dict(kind="cmos", rows=6)),
+    "cosmix": ("charge_generation", "pyxel.models.charge_generation.cosmix",
+               dict(simulation_mode="cosmic_ray", running_mode="stepsize", particle_type="proton", initial_energy=100.0,
+                    particles_per_second=20.0, spectrum_file="@proton_L2_solarMax_11mm_Shielding.txt", progressbar=False),
+               dict(rows=6)),
+    "radiation_induced_dark_current": ("charge_generation", "pyxel.models.charge_generation.radiation_induced_dark_current",
+                                       dict(depletion_volume=64.0, annealing_time=0.1, displacement_dose=500.0,
+                                            shot_noise=True), dict(rows=6)),
+    "dark_current_rule07": ("charge_generation", "pyxel.models.charge_generation.dark_current_rule07",
+                            dict(cutoff_wavelength=2.5, spatial_noise_factor=0.1, temporal_noise=True),
+                            dict(kind="cmos", rows=6)),
+    "dark_current_saphira": ("charge_generation", "pyxel.models.charge_generation.dark_current_saphira", dict(),
+                             dict(kind="apd", rows=6, temp=100.0, gain=10.0)),
+    "readout_noise_saphira": ("charge_measurement", "pyxel.models.charge_measurement.readout_noise_saphira",
+                              dict(roic_readout_noise=0.15, controller_noise=0.1),
+                              dict(kind="apd", rows=6, temp=100.0, gain=10.0)),
+    "conversion_with_qe_map": ("charge_generation", "pyxel.models.charge_generation.conversion_with_qe_map",
+                               dict(filename="@@qe6.npy", binomial_sampling=True), dict(rows=6)),
+    "nghxrg": ("charge_measurement", "pyxel.models.charge_measurement.nghxrg",
+               dict(noise=NGHXRG_NOISE, n_output=1), dict(kind="cmos", rows=16, temp=100.0)),
+    "nghxrg2": ("charge_measurement", "pyxel.models.charge_measurement.nghxrg",
+                dict(noise=[NGHXRG_NOISE[3], NGHXRG_NOISE[0], NGHXRG_NOISE[4]], n_output=1),
+                dict(kind="cmos", rows=16, temp=100.0)),
 }
+
+
+def _args(args: dict) -> dict:
+    out = {}
+    for k, v in args.items():
+        if isinstance(v, str) and v.startswith("@@"):
+            path = os.path.abspath("c04_" + v[2:])
+            if not os.path.exists(path):
+                np.save(path, np.full((6, 6), 0.5))
+            v = path
+        elif isinstance(v, str) and v.startswith("@"):
+            v = _data(v[1:])
+        out[k] = v
+    return out
 
 
 def state_hash() -> str:
@@ -53,11 +135,26 @@ def _fp_tree(dt) -> str:
     return h.hexdigest()[:16]
 
 
-def _pipeline_spec(entries, kind="ccd"):
-    """entries: list of dicts in execution order (the harness generates them in group order)."""
-    spec = {}
-    first_ph = [dict(func="verif_probes.write", name="illum", arguments=dict(bucket="photon", value=200.0, tag=0))]
-    spec["photon_collection"] = list(first_ph)
+def _model_entry(e, i):
+    """-> (group, ModelFunction spec dict, override dict for this entry)"""
+    g, func, args = MODELS[e["model"]][:3]
+    args = _args(args)
+    name = e.get("name", e["model"] + str(i))
+    ovr = {}
+    if "seed" in e and e["model"] != "emccd":
+        if e.get("seed_via") == "override":
+            args["seed"] = e.get("stale_seed", 78)          # replaced through the override key before the run
+            ovr[f"pipeline.{g}.{name}.arguments.seed"] = e["seed"]
+        else:
+            args["seed"] = e["seed"]
+    return g, dict(func=func, name=name, arguments=args), ovr
+
+
+def _pipeline_spec(entries):
+    """entries: list of dicts in execution order (the harness generates them in group order).
+    -> (spec, override dict for model arguments)"""
+    spec, ovr = {}, {}
+    spec["photon_collection"] = [dict(func="verif_probes.write", name="illum", arguments=dict(bucket="photon", value=200.0, tag=0))]
     for i, e in enumerate(entries):
         if e["k"] == "probe":
             g = e["group"]
@@ -72,52 +169,198 @@ def _pipeline_spec(entries, kind="ccd"):
             g = "charge_measurement"
             m = dict(func="pyxel.models.charge_measurement.simple_measurement", name="simple_measurement")
         else:
-            g, func, args = MODELS[e["model"]]
-            args = dict(args)
-            if "seed" in e and e["model"] != "emccd":
-                args["seed"] = e["seed"]
-            m = dict(func=func, name=e.get("name", e["model"] + str(i)), arguments=args)
+            g, m, o = _model_entry(e, i)
+            ovr.update(o)
         spec.setdefault(g, []).append(m)
-    return spec
+    return spec, ovr
 
 
-def _detector(kind="ccd"):
+def _detector(kind="ccd", rows=3, temp=300.0, gain=None):
     from harness import pyx
-    det = pyx.make_detector(kind, rows=3, cols=3)
-    det.environment.temperature = 300.0   # warm enough for the dark-current models to actually draw noise
+    det = pyx.make_detector(kind, rows=rows, cols=rows)
+    det.environment.temperature = temp   # warm enough for the dark-current models to actually draw noise
+    if gain is not None:
+        det.characteristics.avalanche_gain = gain
     return det
 
 
-def _run_item(it, cfg_tag):
-    """-> (result fingerprint or None, raised class or None)"""
-    import dask
-    import pyxel
-    from harness import pyx
+DET_YAML = dict(
+    geometry=dict(row=3, col=3, total_thickness=40.0, pixel_vert_size=10.0, pixel_horz_size=10.0),
+    environment=dict(temperature=300.0),
+    characteristics=dict(quantum_efficiency=1.0, charge_to_volt_conversion=1.0e-6, pre_amplification=1.0,
+                         full_well_capacity=100000, adc_bit_resolution=16, adc_voltage_range=[0.0, 10.0]))
 
+STALE = 77   # what the constructor is given when the real seed arrives later (setter / override)
+
+
+def _yaml_pipeline(spec):
+    doc = {}
+    for g, models in spec.items():
+        doc[g] = [dict(name=m["name"], func=m["func"], enabled=True, **({"arguments": m["arguments"]} if m.get("arguments") else {}))
+                  for m in models]
+    return doc
+
+
+def _cal_target():
+    target = os.path.abspath("c04_target.npy")
+    if not os.path.exists(target):
+        np.save(target, np.full((3, 3), 40.0))
+    return target
+
+
+def _mode_kwargs(it, spec):
+    """Plain-data constructor arguments of the running mode (also what goes into the YAML section)."""
     op = it["op"]
     if op == "exposure":
-        det = _detector(it.get("det", "ccd"))
-        pipe = pyx.make_pipeline(_pipeline_spec(it["pipeline"]))
-        ro = pyx.make_readout(times=[float(k + 1) for k in range(it.get("steps", 1))])
-        dt = pyx.run_exposure(det, pipe, ro, pipeline_seed=it.get("pipeline_seed"))
-        return _fp_tree(dt)
+        return dict(readout=dict(times=[float(k + 1) for k in range(it.get("steps", 1))], non_destructive=False))
     if op == "observation":
+        sw = it.get("sweep_seed")
+        if sw:
+            e = it["pipeline"][sw["index"]]
+            g = MODELS[e["model"]][0]
+            name = e.get("name", e["model"] + str(sw["index"]))
+            params = [dict(key=f"pipeline.{g}.{name}.arguments.seed", values=[int(v) for v in sw["values"]])]
+        else:
+            # sweep an argument that does not change any data: every run consumes the generator identically
+            params = [dict(key="pipeline.photon_collection.illum.arguments.tag", values=[int(v) for v in it["values"]])]
+        return dict(parameters=params, mode="product", readout=dict(times=[1.0], non_destructive=False),
+                    with_dask=bool(it.get("dask")))
+    if op == "calibration":
+        return dict(
+            target_data_path=[_cal_target()],
+            fitness_function=dict(func="pyxel.calibration.fitness.sum_of_abs_residuals"),
+            algorithm=dict(type="sade", generations=it.get("generations", 1), population_size=it.get("pop", 7)),
+            parameters=[dict(key="pipeline.charge_generation.qe.arguments.quantum_efficiency", values="_",
+                             boundaries=[0.1, 0.9]),
+                        dict(key="pipeline.photon_collection.illum.arguments.value", values="_",
+                             boundaries=[90.0, 110.0])],
+            result_type="pixel", result_fit_range=[0, 3, 0, 3], target_fit_range=[0, 3, 0, 3],
+            pygmo_seed=it.get("pygmo_seed", 5), num_islands=it.get("islands", 1),
+            num_evolutions=it.get("evolutions", 1), num_best_decisions=0, topology=it.get("topology", "unconnected"))
+    raise ValueError(op)
+
+
+def _build_mode(it):
+    """-> (mode, detector, pipeline, override_dct) with the pipeline seed arriving through it['via']."""
+    import pyxel
+    from harness import pyx
+    op = it["op"]
+    via = it.get("via", "ctor")
+    seed = it.get("pipeline_seed")
+    spec, ovr = _pipeline_spec(it["pipeline"])
+    kw = _mode_kwargs(it, spec)
+    section = {"exposure": "exposure", "observation": "observation", "calibration": "calibration"}[op]
+    if via == "yaml":
+        import yaml
+        sec = dict(kw)
+        if seed is not None or it.get("yaml_null"):
+            sec["pipeline_seed"] = seed
+        doc = {section: sec, "ccd_detector": DET_YAML, "pipeline": _yaml_pipeline(spec)}
+        cfg = pyxel.loads(yaml.safe_dump(doc, sort_keys=False))
+        return cfg.running_mode, cfg.detector, cfg.pipeline, (ovr or None)
+    ctor_seed = seed if via == "ctor" else it.get("stale_seed", STALE)
+    readout = pyx.make_readout(**{k: v for k, v in kw.pop("readout").items()}) if "readout" in kw else None
+    if op == "exposure":
+        from pyxel.exposure import Exposure
+        mode = Exposure(readout=readout, pipeline_seed=ctor_seed)
+    elif op == "observation":
         from pyxel.observation import Observation, ParameterValues
-        det = _detector(it.get("det", "ccd"))
-        pipe = pyx.make_pipeline(_pipeline_spec(it["pipeline"]))
-        # sweep an argument that does not change any data: every run consumes the generator identically
-        params = [ParameterValues(key="pipeline.photon_collection.illum.arguments.tag", values=[int(v) for v in it["values"]])]
-        obs = Observation(parameters=params, mode="product", readout=pyx.make_readout(times=[1.0]),
-                          with_dask=bool(it.get("dask")), pipeline_seed=it.get("pipeline_seed"))
-        with dask.config.set(scheduler="synchronous"):
-            dt = pyxel.run_mode(mode=obs, detector=det, pipeline=pipe, with_inherited_coords=True)
-            if it.get("dask"):
-                dt = dt.compute()
-        return _fp_tree(dt)
+        kw["parameters"] = [ParameterValues(**p) for p in kw["parameters"]]
+        mode = Observation(readout=readout, pipeline_seed=ctor_seed, **kw)
+    else:
+        from pyxel.calibration import Algorithm, Calibration
+        from pyxel.observation import ParameterValues
+        from pyxel.pipelines import FitnessFunction
+        kw["parameters"] = [ParameterValues(**dict(p, boundaries=tuple(p["boundaries"]))) for p in kw["parameters"]]
+        kw["fitness_function"] = FitnessFunction(**kw["fitness_function"])
+        kw["algorithm"] = Algorithm(**kw["algorithm"])
+        kw["result_fit_range"] = tuple(kw["result_fit_range"])
+        kw["target_fit_range"] = tuple(kw["target_fit_range"])
+        mode = Calibration(readout=None, pipeline_seed=ctor_seed, **kw)
+    override = dict(ovr)
+    if via == "setter":
+        mode.pipeline_seed = seed
+    elif via == "override":
+        override[f"{section}.pipeline_seed"] = seed
+    elif via != "ctor":
+        raise ValueError(via)
+    det = _detector(it.get("det", "ccd"), rows=int(it.get("rows", 3)), temp=float(it.get("temp", 300.0)))
+    pipe = pyx.make_pipeline(spec)
+    return mode, det, pipe, (override or None)
+
+
+# ------------------------------------------------------------------ calibration: islands observed from outside
+
+ISLAND_LOG = dict(active=False, plan=[], calls=[], finished=[], archi=[], lock=threading.Lock())
+
+
+def _install_island_wrappers(parallel):
+    """Wrap pygmo.island.__init__ (sleep after construction as planned, log the finishing order) and
+    ArchipelagoDataTree.__init__/_build (inject `parallel`, read the seed of every island)."""
+    import pygmo as pg
+    from pyxel.calibration import archipelago_datatree as ad
+
+    if not getattr(pg.island, "_c04_wrapped", False):
+        # pygmo itself installs island.__init__ with setattr on the class; archipelago.push_back insists on
+        # type(x) == pygmo.island, so the class stays and only its __init__ is wrapped
+        orig_init_island = pg.island.__init__
+
+        def island_init(self, *a, **kw):
+            L = ISLAND_LOG
+            if not L["active"]:
+                return orig_init_island(self, *a, **kw)
+            with L["lock"]:
+                k = len(L["calls"])
+                L["calls"].append(kw.get("seed"))
+            pre = L["preplan"][k] if k < len(L.get("preplan", [])) else 0.0
+            if pre:
+                time.sleep(pre)       # changes the order in which the island constructors START their work
+            orig_init_island(self, *a, **kw)
+            d = L["plan"][k] if k < len(L["plan"]) else 0.0
+            if d:
+                time.sleep(d)
+            with L["lock"]:
+                L["finished"].append(k)
+
+        pg.island.__init__ = island_init
+        pg.island._c04_wrapped = True
+    cls = ad.ArchipelagoDataTree
+    if not getattr(cls, "_c04_wrapped", False):
+        orig_init, orig_build = cls.__init__, cls._build
+
+        def __init__(self, *a, **kw):
+            if ISLAND_LOG.get("parallel") is not None:
+                kw["parallel"] = ISLAND_LOG["parallel"]
+            return orig_init(self, *a, **kw)
+
+        def _build(self):
+            ISLAND_LOG["active"] = True
+            try:
+                return orig_build(self)
+            finally:
+                ISLAND_LOG["active"] = False
+                try:
+                    ISLAND_LOG["archi"] = [int(isl.get_population().get_seed()) for isl in self._pygmo_archi]
+                except Exception as ex:  # noqa: BLE001
+                    ISLAND_LOG["archi"] = ["err:" + type(ex).__name__]
+
+        cls.__init__, cls._build, cls._c04_wrapped = __init__, _build, True
+    ISLAND_LOG["parallel"] = parallel
+
+
+def _run_item(it):
+    """-> (result fingerprint, aux) ; aux = for calibrations (completion order, task index at every island position)"""
+    import dask
+    import pyxel
+
+    op = it["op"]
     if op == "call":
         import importlib
-        g, func, args = MODELS[it["model"]]
-        det = _detector(it.get("det", "ccd"))
+        spec = MODELS[it["model"]]
+        g, func, args = spec[:3]
+        opt = spec[3] if len(spec) > 3 else {}
+        det = _detector(it.get("det") or opt.get("kind", "ccd"), rows=opt.get("rows", 3), temp=opt.get("temp", 300.0),
+                        gain=opt.get("gain"))
         det.set_readout(times=[1.0], start_time=0.0, non_destructive=False) if hasattr(det, "set_readout") else None
         det.readout_properties.time = 1.0
         det.readout_properties.time_step = 1.0
@@ -129,62 +372,124 @@ def _run_item(it, cfg_tag):
         det.signal.array = base.copy() * 1.0e-3
         modname, fname = func.rsplit(".", 1)
         f = getattr(importlib.import_module(modname), fname)
-        kw = dict(args)
+        kw = _args(args)
         kw["seed"] = it.get("seed")
         f(det, **kw)
         h = hashlib.sha1()
         for b in ("photon", "pixel", "signal"):
             h.update(np.ascontiguousarray(getattr(det, b).array).tobytes())
         h.update(np.ascontiguousarray(det.charge.array).tobytes())
-        return h.hexdigest()[:16]
-    if op == "calibration":
-        from pyxel.calibration import Algorithm, Calibration
-        from pyxel.observation import ParameterValues
-        from pyxel.pipelines import FitnessFunction
-        target = os.path.abspath("c04_target.npy")
-        if not os.path.exists(target):
-            np.save(target, np.full((3, 3), 40.0))
-        det = _detector("ccd")
-        pipe = pyx.make_pipeline(_pipeline_spec(it["pipeline"]))
-        cal = Calibration(
-            target_data_path=[target],
-            fitness_function=FitnessFunction(func="pyxel.calibration.fitness.sum_of_abs_residuals"),
-            algorithm=Algorithm(type="sade", generations=it.get("generations", 1), population_size=it.get("pop", 7)),
-            parameters=[
-                ParameterValues(key="pipeline.charge_generation.qe.arguments.quantum_efficiency", values="_",
-                                boundaries=(0.1, 0.9)),
-                ParameterValues(key="pipeline.photon_collection.illum.arguments.value", values="_",
-                                boundaries=(90.0, 110.0))],
-            readout=None, result_type="pixel", result_fit_range=(0, 3, 0, 3), target_fit_range=(0, 3, 0, 3),
-            pygmo_seed=it.get("pygmo_seed", 5), pipeline_seed=it.get("pipeline_seed"), num_islands=1,
-            num_evolutions=it.get("evolutions", 1), num_best_decisions=0)
+        return h.hexdigest()[:16], None
+    mode, det, pipe, override = _build_mode(it)
+    if op == "exposure":
+        dt = pyxel.run_mode(mode=mode, detector=det, pipeline=pipe, override_dct=override, with_inherited_coords=True)
+        return _fp_tree(dt), None
+    if op == "observation":
         with dask.config.set(scheduler="synchronous"):
-            dt = pyxel.run_mode(mode=cal, detector=det, pipeline=pipe, with_inherited_coords=True)
-        return _fp_tree(dt)
+            dt = pyxel.run_mode(mode=mode, detector=det, pipeline=pipe, override_dct=override, with_inherited_coords=True)
+            if it.get("dask"):
+                dt = dt.compute()
+        return _fp_tree(dt), None
+    if op == "calibration":
+        n = int(it.get("islands", 1))
+        aux = None
+        if n > 1 or it.get("parallel") is not None:
+            _install_island_wrappers(it.get("parallel"))
+            L = ISLAND_LOG
+            L.update(plan=[float(x) for x in it.get("delay", [])], preplan=[float(x) for x in it.get("predelay", [])],
+                     calls=[], finished=[], archi=[])
+        with dask.config.set(scheduler="synchronous"):
+            dt = pyxel.run_mode(mode=mode, detector=det, pipeline=pipe, override_dct=override, with_inherited_coords=True)
+        fp = _fp_tree(dt)
+        if n > 1 or it.get("parallel") is not None:
+            L = ISLAND_LOG
+            calls = list(L["calls"])            # seed handed to the k-th created island = submission order
+            pos = [calls.index(s) if s in calls else -1 for s in L["archi"]]
+            aux = dict(order=list(L["finished"]), assignment=pos, n=len(calls))
+            fp = hashlib.sha1((fp + json.dumps(L["archi"])).encode()).hexdigest()[:16]
+            L["parallel"] = None
+        return fp, aux
     raise ValueError(op)
 
 
-def handle(p):
+# ------------------------------------------------------------------ np.random.seed / set_state seen from outside
+
+BRACKET_LOG = dict(active=False, events=[], lock=threading.Lock(), installed=False)
+
+
+def _install_bracket_log():
+    """Wrap the module attributes np.random.seed / np.random.set_state (what set_random_seed calls) so that,
+    while an item runs, every call is recorded with the calling thread and the seed."""
+    if BRACKET_LOG["installed"]:
+        return
+    orig_seed, orig_set = np.random.seed, np.random.set_state
+
+    def seed(*a, **kw):
+        if BRACKET_LOG["active"]:
+            s = a[0] if a else kw.get("seed")
+            with BRACKET_LOG["lock"]:
+                BRACKET_LOG["events"].append((threading.get_ident(), "enter", None if s is None else int(s)))
+        return orig_seed(*a, **kw)
+
+    def set_state(*a, **kw):
+        if BRACKET_LOG["active"]:
+            with BRACKET_LOG["lock"]:
+                BRACKET_LOG["events"].append((threading.get_ident(), "exit", None))
+        return orig_set(*a, **kw)
+
+    np.random.seed, np.random.set_state = seed, set_state
+    BRACKET_LOG.update(installed=True, orig_seed=orig_seed, orig_set=orig_set)
+
+
+def _bracket_trace():
+    tmap, out = {}, []
+    for tid, kind, s in BRACKET_LOG["events"]:
+        t = tmap.setdefault(tid, len(tmap))
+        out.append([t, kind, s])
+    return out
+
+
+# ------------------------------------------------------------------ running a list of items in THIS process
+
+
+def _state_to_json(st):
+    return [st[0], [int(x) for x in st[1]], int(st[2]), int(st[3]), float(st[4]).hex()]
+
+
+def _state_from_json(j):
+    return (j[0], np.array(j[1], dtype=np.uint32), int(j[2]), int(j[3]), float.fromhex(j[4]))
+
+
+def run_segment(items, state=None):
+    """Run items one after the other here; -> (raw observations with hashes, final generator state)."""
     import verif_probes as vp
 
     raw = []
-    # start from a state that is not the state right after any np.random.seed(j) of the session
-    np.random.seed(987654321)
-    np.random.random(7)
-    for it in p["items"]:
+    _install_bracket_log()
+    if state is None:
+        # start from a state that is not the state right after any np.random.seed(j) of the session
+        np.random.seed(987654321)
+        np.random.random(7)
+    else:
+        np.random.set_state(_state_from_json(state))
+    for it in items:
         vp.reset()
         pre = state_hash()
-        res, raised, top_draws = None, None, []
+        res, raised, top_draws, aux = None, None, [], None
         op = it["op"]
         if op == "seed":
             np.random.seed(int(it["j"]))
         elif op == "draws":
             top_draws = [float(np.random.random()).hex() for _ in range(int(it["k"]))]
         else:
+            BRACKET_LOG["events"] = []
+            BRACKET_LOG["active"] = True
             try:
-                res = _run_item(it, it.get("cfg"))
+                res, aux = _run_item(it)
             except Exception as ex:  # noqa: BLE001
                 raised = type(ex).__name__
+            finally:
+                BRACKET_LOG["active"] = False
         post = state_hash()
         inner, draws = [], []
         for e in vp.TRACE:
@@ -194,13 +499,58 @@ def handle(p):
                     draws.append(float(v).hex())
                 inner.append(e["after"])
         if op in ("seed", "draws"):
-            raw.append(dict(run=False, pre=pre, inner=[], post=post, draws=top_draws, res=None, raised=False, err=None))
+            raw.append(dict(run=False, pre=pre, inner=[], post=post, draws=top_draws, res=None, raised=False, err=None,
+                            aux=None, trace=[]))
         else:
-            key = None if raised else f"{it.get('cfg')}|{res}"
-            if raised:
-                key = f"{it.get('cfg')}|raised"
+            key = f"{it.get('cfg')}|raised" if raised else f"{it.get('cfg')}|{res}"
             raw.append(dict(run=True, pre=pre, inner=inner, post=post, draws=draws, res=key,
-                            raised=bool(raised), err=raised))
+                            raised=bool(raised), err=raised, aux=aux, trace=_bracket_trace()))
+    return raw, _state_to_json(np.random.get_state())
+
+
+def _child(items, state, hashseed):
+    """Run a segment in a fresh interpreter with its own PYTHONHASHSEED."""
+    tag = hashlib.sha1(json.dumps([items, hashseed], sort_keys=True).encode()).hexdigest()[:10]
+    fin, fout = os.path.abspath(f"c04_child_{tag}.in.json"), os.path.abspath(f"c04_child_{tag}.out.json")
+    with open(fin, "w") as fh:
+        json.dump([dict(segment=items, state=state)], fh)
+    if os.path.exists(fout):
+        os.unlink(fout)
+    env = dict(os.environ, PYTHONHASHSEED=str(int(hashseed)))
+    r = subprocess.run([sys.executable, "-B", "-m", "harness.drivers._main", "c04", fin, fout],
+                       env=env, capture_output=True, text=True, timeout=900)
+    if not os.path.exists(fout):
+        raise RuntimeError(f"child interpreter failed rc={r.returncode}: {r.stderr[-600:]}")
+    out = json.load(open(fout))[0]
+    if "driver_error" in out:
+        raise RuntimeError("child interpreter: " + out["driver_error"] + out.get("tb", "")[-600:])
+    os.unlink(fin)
+    os.unlink(fout)
+    return out["raw"], out["state"], out["hashseed"]
+
+
+def handle(p):
+    if "segment" in p:      # we ARE the child interpreter
+        raw, st = run_segment(p["segment"], p.get("state"))
+        return dict(raw=raw, state=st, hashseed=os.environ.get("PYTHONHASHSEED"))
+
+    items = p["items"]
+    procs = p.get("procs")
+    seen_hashseeds = []
+    if not procs:
+        raw, _ = run_segment(items)
+    else:
+        raw, state, k = [], None, 0
+        # the very first state is produced by the first child the same way run_segment does without a state
+        while k < len(items):
+            pr = int(items[k].get("proc", 0))
+            seg = []
+            while k < len(items) and int(items[k].get("proc", 0)) == pr:
+                seg.append(items[k])
+                k += 1
+            r, state, hs = _child(seg, state, procs[pr])
+            seen_hashseeds.append(hs)
+            raw += r
     # renumber by first occurrence over the whole session (same order as Model/Rng.v impl_out)
     smap, dmap, rmap = {}, {}, {}
 
@@ -211,7 +561,7 @@ def handle(p):
 
     out = []
     for r in raw:
-        o = dict(run=r["run"], raised=r["raised"], err=r["err"])
+        o = dict(run=r["run"], raised=r["raised"], err=r["err"], aux=r.get("aux"), trace=r.get("trace", []))
         o["pre"] = num(smap, r["pre"])
         o["inner"] = [num(smap, s) for s in r["inner"]]
         o["post"] = num(smap, r["post"])
@@ -220,4 +570,4 @@ def handle(p):
         o["draws"] = [num(dmap, d) for d in r["draws"]]
     for r, o in zip(raw, out):
         o["res"] = num(rmap, r["res"]) if r["run"] else -1
-    return {"items": out}
+    return {"items": out, "hashseeds": seen_hashseeds}
